@@ -139,6 +139,16 @@ class _Wrapper:
         self.f.close()
 
 
+class _ReIter:
+    """A re-iterable body that is not a list: every iter() starts over; no close, no app_iter_range."""
+
+    def __init__(self, chunks):
+        self.chunks = tuple(chunks)
+
+    def __iter__(self):
+        return iter(self.chunks)
+
+
 def make_app_iter(case):
     chunks = [bytes.fromhex(c) for c in case["chunks"]]
     kind = case.get("iter", "list")
@@ -146,6 +156,8 @@ def make_app_iter(case):
         return list(chunks)
     if kind == "gen":
         return (c for c in chunks)
+    if kind == "reiter":
+        return _ReIter(chunks)
     from webob.static import FileIter
     data = b"".join(chunks)
     if kind == "file":
@@ -721,6 +733,174 @@ def oracle_fileapp(tmpdir, data, method, rng_text, wrapper, bs, ims_delta=None, 
         len(data), bs, wrapper, method, hs, msgs[0])
 
 
+# =========================================================================== histories: one long-lived object
+REQ_FIELDS = ("method", "inm", "ims", "range", "ifr")
+
+
+def merge(base, step):
+    case = {k: v for k, v in base.items() if k not in REQ_FIELDS}
+    case.update({k: step[k] for k in REQ_FIELDS if k in step})
+    case.setdefault("method", "GET")
+    return case
+
+
+def resp_state(resp):
+    return [resp.status, [list(h) for h in resp.headerlist], [bytes(c) for c in resp.app_iter], bool(resp.conditional_response)]
+
+
+def oracle_history(hist):
+    """ONE Response (conditional_response=True, re-iterable body) answers hist["steps"] in sequence.
+    Every answer must be what a brand-new identically built Response gives for that request (and what the
+    reference evaluator says), and the Response's own status / headerlist / body must be as before."""
+    from webob import Request
+    base, steps = hist["base"], hist["steps"]
+    if base.get("iter", "list") not in ("list", "reiter"):
+        return "history:bad-case", "history needs a re-iterable body"
+    try:
+        _, shared = build(merge(base, {}))
+        before = resp_state(shared)
+    except Exception as e:  # noqa
+        return "history:raises:" + type(e).__name__, "building the shared response raised %r" % (e,)
+    for n, step in enumerate(steps):
+        case = merge(base, step)
+        r = oracle_case(case)                      # the fresh object against the reference
+        if r:
+            return r
+        fresh = impl_get_response(case)
+        try:
+            req = Request.blank("/", method=case["method"], headers=request_headers(case))
+            if step.get("via") == "call_application":
+                st, hl, it = req.call_application(shared)
+                got = [st, [[k, v] for k, v in hl], b"".join(it)]
+            else:
+                res = req.get_response(shared)
+                got = [res.status, [[k, v] for k, v in res.headerlist], res.body]
+            after = resp_state(shared)
+        except Exception as e:  # noqa
+            return "history:raises:" + type(e).__name__, "step %d of %s raised %r on the long-lived response" % (
+                n, json.dumps(hist), e)
+        if got != fresh:
+            return "history:differs-from-fresh", (
+                "step %d (%s) on a Response that already served %d requests: got %r, a brand-new identical Response "
+                "gives %r; earlier requests: %s" % (n, describe(case), n, got, fresh,
+                                                    [request_headers(merge(base, s_)) for s_ in steps[:n]]))
+        if after != before:
+            return "history:response-mutated", (
+                "after step %d (%s) the Response object itself changed: status/headerlist/body/conditional_response "
+                "%r, before %r" % (n, describe(case), after, before))
+    return None
+
+
+def fileapp_history(tmpdir, hist):
+    """ONE FileApp instance answers a sequence of requests; each answer = a brand-new FileApp's answer."""
+    import webob.static as st
+    from webob import Request
+    data = bytes((7 * i + 3) % 256 for i in range(hist["size"]))
+    path = os.path.join(tmpdir, "h%d.bin" % len(data))
+    with open(path, "wb") as f:
+        f.write(data)
+    os.utime(path, (T0, T0))
+    old = st.BLOCK_SIZE
+    st.BLOCK_SIZE = 4
+    try:
+        shared = st.FileApp(path)
+        kw_before = dict(shared.kw)
+
+        def call(app, step):
+            hs = {}
+            if step.get("range") is not None:
+                hs["Range"] = step["range"]
+            if step.get("ims") is not None:
+                hs["If-Modified-Since"] = http_date(T0 + step["ims"])
+            if step.get("ifr") is not None:
+                hs["If-Range"] = http_date(T0 + step["ifr"])
+            if step.get("inm") is not None:
+                hs["If-None-Match"] = step["inm"]
+            req = Request.blank("/", method=step.get("method", "GET"), headers=hs)
+            if step.get("wrapper"):
+                req.environ["wsgi.file_wrapper"] = _Wrapper
+            res = req.get_response(app)
+            return [res.status, [[k, v] for k, v in res.headerlist], res.body]
+        for n, step in enumerate(hist["steps"]):
+            got = call(shared, step)
+            fresh = call(st.FileApp(path), step)
+            if got != fresh:
+                return "history:fileapp-differs-from-fresh", (
+                    "FileApp instance that already served %d requests answers %r with %r, a brand-new FileApp with %r"
+                    % (n, step, got, fresh))
+            if dict(shared.kw) != kw_before or shared.filename != path:
+                return "history:fileapp-mutated", "FileApp.kw changed from %r to %r after %r" % (kw_before, shared.kw, step)
+    except Exception as e:  # noqa
+        return "history:raises:" + type(e).__name__, "FileApp history %s raised %r" % (json.dumps(hist), e)
+    finally:
+        st.BLOCK_SIZE = old
+    return None
+
+
+def step_universe(L):
+    """Requests that between them produce 304 / 206 / 416 / full for GET, HEAD and POST."""
+    return [
+        {"method": "GET"}, {"method": "HEAD"}, {"method": "POST", "inm": "*"},
+        {"method": "GET", "range": "bytes=1-2"}, {"method": "HEAD", "range": "bytes=0-0"},
+        {"method": "GET", "range": "bytes=-1", "via": "call_application"}, {"method": "GET", "range": "bytes=%d-" % L},
+        {"method": "GET", "range": "bytes=1-2,3-3"}, {"method": "GET", "inm": [["a", False]]},
+        {"method": "GET", "inm": "*", "range": "bytes=1-2"}, {"method": "GET", "inm": [["zz", False]], "ims": T0 + 5},
+        {"method": "HEAD", "ims": T0 + 5}, {"method": "GET", "ims": T0 - 5, "range": "bytes=2-"},
+        {"method": "GET", "range": "bytes=0-1", "ifr": ["tag", "a", False]},
+        {"method": "GET", "range": "bytes=0-1", "ifr": ["tag", "b", False], "via": "call_application"},
+        {"method": "GET", "range": "bytes=0-1", "ifr": ["date", T0 - 5]},
+    ]
+
+
+def gen_histories(ctx):
+    bases = [{"status": "200 OK", "chunks": ["6162", "", "636465"], "etag": ["a", False], "lm": T0, "iter": "list",
+              "extra": [["X-Extra", "1"]]},
+             {"status": "200 OK", "chunks": ["61", "62636465"], "etag": ["a", True], "lm": T0, "iter": "reiter",
+              "ctname": "content-TYPE", "clname": "CONTENT-length"}]
+    U = step_universe(5)
+    for base in bases:
+        for a in U:
+            for b in U:
+                if a is not b:
+                    yield {"kind": "history", "base": base, "steps": [a, b, a]}
+    rng = ctx.sub_rng("oracle-history")
+    for _ in range(ctx.scale(400, 6000)):
+        c = rand_case(rng, 12, iters=("list", "reiter"))
+        base = {k: v for k, v in c.items() if k not in REQ_FIELDS}
+        L = sum(len(bytes.fromhex(x)) for x in base["chunks"])
+        steps = []
+        for _ in range(rng.randrange(2, 9)):
+            if rng.random() < 0.5:
+                steps.append(dict(rng.choice(step_universe(L))))
+            else:
+                r = rand_case(rng, 1)
+                st_ = {k: r[k] for k in REQ_FIELDS if k in r}
+                if "range" in st_ and rng.random() < 0.6:
+                    st_["range"] = rng.choice(range_texts(min(L, 6)))
+                if rng.random() < 0.3:
+                    st_["via"] = "call_application"
+                steps.append(st_)
+        yield {"kind": "history", "base": base, "steps": steps}
+        if rng.random() < 0.3:                      # the same requests in the opposite order
+            yield {"kind": "history", "base": base, "steps": steps[::-1]}
+
+
+def gen_fileapp_histories(ctx):
+    rng = ctx.sub_rng("oracle-fileapp-history")
+    U = [{"method": "GET"}, {"method": "HEAD"}, {"method": "POST"}, {"range": "bytes=1-2"}, {"range": "bytes=-3", "wrapper": True},
+         {"range": "bytes=99-"}, {"range": "bytes=0-0", "method": "HEAD"}, {"ims": 5}, {"ims": -5, "range": "bytes=2-"},
+         {"range": "bytes=0-1", "ifr": 5}, {"range": "bytes=0-1", "ifr": -5, "wrapper": True}, {"inm": "*"},
+         {"range": "bytes=x"}, {"range": "bytes=4-7", "wrapper": True}]
+    for size in (0, 5, 9):
+        for a in U:
+            for b in U:
+                if a is not b:
+                    yield {"kind": "fileapp-history", "size": size, "steps": [a, b, a]}
+    for _ in range(ctx.scale(60, 1500)):
+        yield {"kind": "fileapp-history", "size": rng.choice([1, 4, 5, 8, 13]),
+               "steps": [dict(rng.choice(U)) for _ in range(rng.randrange(2, 9))]}
+
+
 # =========================================================================== Coq literals
 def c_chunks(cs):
     return clist(cstr(c) for c in cs)
@@ -947,6 +1127,23 @@ def run(ctx):
                                                   "wrapper": wrapper, "ims": d1, "ifr": d2}, True, "fileapp")
     ctx.oracle_count("fileapp", n, nt)
 
+    # (8) histories: ONE Response / ONE FileApp answering several different requests in sequence
+    n = 0
+    for hist in gen_histories(ctx):
+        n += 1
+        r = oracle_history(hist)
+        if r:
+            ctx.fail(r[0], r[1], hist, True, "history")
+    ctx.oracle_count("history", n, n)
+    n = 0
+    with tempfile.TemporaryDirectory(prefix="c06-") as tmp:
+        for hist in gen_fileapp_histories(ctx):
+            n += 1
+            r = fileapp_history(tmp, hist)
+            if r:
+                ctx.fail(r[0], r[1], hist, True, "fileapp-history")
+    ctx.oracle_count("fileapp-history", n, n)
+
     ctx.extra["rule"] = (
         "correspondence: distinct generated inputs per model function (AppIterRange: all chunkings of bodies <= 4 bytes x all "
         "start<=stop plus random chunkings <= 14 bytes, compared on the exact yield sequence; FileIter: random data/seek/limit/"
@@ -956,7 +1153,10 @@ def run(ctx):
         "header list and body).  oracle: a case counts as non-trivial when it carries a Range or If-None-Match header or "
         "the reference outcome is not the full response; sweeps = exhaustive bodies x chunkings x structured ranges x "
         "GET/HEAD x iterator kinds, all Range texts over a 7-symbol alphabet up to a length bound, full products of "
-        "validator combinations, random larger cases, FileApp on real files")
+        "validator combinations, random larger cases, FileApp on real files; histories = one long-lived Response "
+        "(list / re-iterable body) and one FileApp instance answering 3-8 different requests in sequence (all ordered "
+        "pairs a,b,a over a 16-request universe + random, some replayed in reverse order), each answer compared with a "
+        "brand-new identical object's and the Response's status/headerlist/body compared with before")
     ctx.extra["exhaustive"] = False
     ctx.assume += [
         "an If-Range date matches when Last-Modified is not later than it (the same comparison the statement uses for "
@@ -996,6 +1196,11 @@ def replay(ctx, path):
             size = case["size"]
             r = oracle_fileapp(tmp, bytes((7 * i + 3) % 256 for i in range(size)), case["method"], case["range"],
                                case["wrapper"], 4, case.get("ims"), case.get("ifr"))
+    elif kind == "history":
+        r = oracle_history(case)
+    elif kind == "fileapp-history":
+        with tempfile.TemporaryDirectory(prefix="c06-") as tmp:
+            r = fileapp_history(tmp, case)
     else:
         r = oracle_case(case)
     if r:
